@@ -248,6 +248,10 @@ func genBlockPlan(seed uint64, thorough bool) *Plan {
 			default:
 				a = []string{g.pick("LPUSH", "RPUSH"), k}
 				for j := 0; j <= g.r.IntN(3); j++ {
+					if g.chance(8) {
+						a = append(a, "") // the empty element is an element
+						continue
+					}
 					a = append(a, g.val())
 				}
 			}
